@@ -91,6 +91,22 @@ def bulk_count(sl):
     observe("enough bulks for all documents, none empty", s_and(total * bulk >= carried, total <= carried))
 
 
+def _decimal_text(x):
+    """str() of the percentage: Python prints the shortest decimal that reads back as the same double, i.e. the decimal the user wrote
+    (assumption, listed in the evidence); for a symbolic percentage the 'text' is the exact value itself"""
+    return x if core.is_sym(x) else str(x)
+
+
+class _ExactFractions:
+    """fractions.Fraction over exact reals: for a symbolic value the fraction IS the (exact) real; model R is therefore faithful for a kernel
+    that calculates with Fraction - no binary rounding takes place in it"""
+
+    @staticmethod
+    def Fraction(x):
+        import fractions
+        return x if core.is_sym(x) else fractions.Fraction(x)
+
+
 def ingest_percentage(sl):
     """total_bulks == ceil(all_bulks * p / 100) for p in (0, 100]"""
     p = fresh_real("ingest_percentage", 0, 100)
@@ -101,7 +117,7 @@ def ingest_percentage(sl):
     src = params.PartitionBulkIndexParamSource(corp, bulk, bulk, p, params.IndexIdConflict.NoConflicts, None, None, None,
                                                original_params={"__create_reader": lambda *a: None})
     src.partition(0, 1)
-    with shadowed(params, ("round", "int", "float"), extra={"math": core.math_shadow}):
+    with shadowed(params, ("round", "int", "float"), extra={"math": core.math_shadow, "str": _decimal_text, "fractions": _ExactFractions}):
         src._init_internal_params()
         allb = params.number_of_bulks(corp, 0, 0, 1, bulk)
     tb = src.total_bulks
@@ -423,12 +439,15 @@ def ingest_percentage_float_sweep(tier, deadline):
 
     t0 = _time.time()
     out = {"name": "ingest_percentage_float_sweep", "kind": "auxiliary enumeration of concrete runs with native IEEE floats", "evaluations": 0, "distinct_nontrivial": 0,
-           "exhaustive": True, "violations": [], "errors": [], "bounds": {"bulks": "1..%d" % (600 if tier == "quick" else 3000), "p": "1..100 in steps of 0.5 (exactly representable), plus 99.9, 0.1 and 33.3 read as decimals"}}
-    ps = [k / 2 for k in range(1, 201)] + [99.9, 0.1, 33.3]
+           "exhaustive": True, "violations": [], "errors": [], "bounds": {"bulks": "1..%d" % (600 if tier == "quick" else 3000), "p": "every percentage with one decimal place 0.1..100.0 (read as the decimal that was written); every percentage with two decimal places "
+                                                                                                        "0.01..100.00 for bulks up to %d" % (60 if tier == "quick" else 300)}}
+    ps = [k / 10 for k in range(1, 1001)]
+    ps2 = [k / 100 for k in range(1, 10001) if k % 10]
     top = 600 if tier == "quick" else 3000
+    top2 = 60 if tier == "quick" else 300
     for n in range(1, top + 1):
         corp = [Corpus([DocSet(n, False)])]
-        for p in ps:
+        for p in (ps + ps2 if n <= top2 else ps):
             src = params.PartitionBulkIndexParamSource(corp, 1, 1, p, params.IndexIdConflict.NoConflicts, None, None, None,
                                                        original_params={"__create_reader": lambda *a: None})
             src.partition(0, 1)
